@@ -261,6 +261,9 @@ func (f *Frame) rangeNext(in *ssa.Next) {
 	b0 := f.byteAt(rs.m, pos)
 	f.assume(Implies(And(ok, Lt(b0, IntLit(128))), And(Eq(r, b0), Eq(w, IntLit(1)))), "ASCII bytes decode to themselves")
 	f.assume(Implies(And(ok, Ge(b0, IntLit(128))), Ge(r, IntLit(128))), "non-ASCII lead byte decodes to a non-ASCII rune")
+	for i := int64(1); i < 4; i++ {
+		f.assume(Implies(And(ok, Gt(w, IntLit(i))), Ge(f.byteAt(rs.m, Add(pos, IntLit(i))), IntLit(128))), "bytes of a multi-byte rune are >= 0x80")
+	}
 	f.E.Trusted["range over string: decodes one rune per iteration (ASCII exact, others abstract)"] = true
 	f.st = f.st.Clone()
 	f.st.Set(rs.visKey, IntS, f.E.name(Ite(ok, Add(pos, w), pos), f.prefix+"pos"))
